@@ -1512,6 +1512,8 @@ static void emit_data(Obj *prog) {
     else
       println("  .bss");
 
+    println("  .type %s, @object", var->name);
+    println("  .size %s, %d", var->name, var->ty->size);
     println("  .align %d", align);
     println("%s:", var->name);
     println("  .zero %d", var->ty->size);
